@@ -163,6 +163,50 @@ func c03RunOne(k *vKern, b *c03Behaviour, idx int, rng *rand.Rand, res *verifuti
 		case "tick":
 			trail = append(trail, fmt.Sprintf("+%ds", ev.Obs.Mark))
 			c03Age(k, src, dst, l4, ev.Obs.Mark)
+		case "janitor":
+			// the control plane's conn-state janitor; "lead": the datapath refreshed the flow's entry after the janitor sampled
+			// its clock - the janitor sees an entry that is newer than its "now" (reproduced by stamping the entry ahead)
+			keys := []bpfTuplesKey{bpfTuplesKeyFromAddrPorts(src, dst, l4), bpfTuplesKeyFromAddrPorts(dst, src, l4)}
+			saved := map[int]uint64{}
+			if ev.K == "lead" {
+				trail = append(trail, "janitor scan racing with a packet of the flow")
+				var ts unix.Timespec
+				_ = unix.ClockGettime(unix.CLOCK_MONOTONIC, &ts)
+				for i, key := range keys {
+					var cs bpfConnState
+					if err := k.objs.ConnStateMap.Lookup(&key, &cs); err == nil {
+						saved[i] = cs.LastSeenNs
+						cs.LastSeenNs = uint64(ts.Nano()) + 2e9
+						_ = k.objs.ConnStateMap.Update(&key, &cs, ebpf.UpdateExist)
+					}
+				}
+			} else {
+				trail = append(trail, "janitor scan")
+			}
+			core := &controlPlaneCore{}
+			core.bpf.Store(k.objs)
+			jp := &ControlPlane{log: verifLogger(), core: core, controlPlaneDatapathJanitor: controlPlaneDatapathJanitor{connStateJanitorStop: make(chan struct{})}}
+			jp.cleanupConnStateMap(false)
+			present := false
+			for i, key := range keys {
+				var cs bpfConnState
+				if err := k.objs.ConnStateMap.Lookup(&key, &cs); err == nil {
+					present = true
+					if old, ok := saved[i]; ok {
+						cs.LastSeenNs = old
+						_ = k.objs.ConnStateMap.Update(&key, &cs, ebpf.UpdateExist)
+					}
+				}
+			}
+			res.Eval(1)
+			if want := ev.Obs.Verdict == "kept"; present != want {
+				if want {
+					fail("|janitor", "the janitor ended the tracking of a flow that has not been idle for its timeout (120 s, closing TCP 10 s): its later packets no longer follow the first packet's decision")
+				} else {
+					fail("|janitor", "the janitor kept the entry of a flow that has been idle for longer than its timeout")
+				}
+				return
+			}
 		case "rules":
 			trail = append(trail, "rules change: "+c03DecText(ev.Obs.Rec))
 			if err := c03InstallRules(k, dst.Addr(), ev.Obs.Rec); err != nil {
